@@ -10,7 +10,7 @@ from props import common as K
 
 META = {
     "level": "other",
-    "technique": "static analysis of type-checked MIR (rustc_private driver): abstract-interpretation tables vs spec regions, construction-site enumeration, projection agreement of Eq/Ord/Hash, step-table extraction of the merge iterators",
+    "technique": "static analysis of type-checked MIR (rustc_private driver): abstract-interpretation tables vs spec regions, construction-site enumeration, projection agreement of Eq/Ord/Hash, step-table extraction of the merge iterators; symbolic bit-vector evaluation (affine forms over GF(2), reduced row echelon comparison) of Prefix::covers and the Bits mask helpers for every length; per-value evaluation of stored family/length codes",
     "explanation": "Abstract-interpretation tables for FamilyAndLen::new_v4/new_v6/len/is_v4, MaxLenPrefix::new/"
                    "saturating_new/resolved_max_len compared with the spec for every input region; construction-site "
                    "enumeration for FamilyAndLen, Prefix, MaxLenPrefix and SmallAsnSet (every safe constructor goes through "
